@@ -21,6 +21,12 @@ READ_EXEMPT = {
 WRITE_EXEMPT = {
     ("FitBase.do_fit", "_param_model._error_dicts"): "do_fit points model-relative sources at the data for the first pass; the affected nodes are refreshed by the freeze protocol (F5: update/unfreeze/notify_parents) and by the recalculation that resets the references",
 }
+VALUE_NODES = {"data", "model", "x_data", "y_data", "x_model", "y_model"}
+# (fit class, entry point qualname) exempt from Cnx with reason
+ENTRY_EXEMPT = {
+    ("UnbinnedFit", "FitBase.enable_error"): "UnbinnedContainer rejects every source: no source exists, _get_error_by_name_raise always raises before the write",
+    ("UnbinnedFit", "FitBase.disable_error"): "UnbinnedContainer rejects every source: no source exists, _get_error_by_name_raise always raises before the write",
+}
 REQUIRED_EDGES = [
     # (node, depends on, fit classes or None=all where node exists, reason)
     ("y_model", "parameter_values", None, "model values follow the parameters"),
@@ -72,6 +78,13 @@ def _node_names_of_receiver(eng, ctx, f, recv):
         s = common.const_str(a)
         if s:
             return {s}
+        k = self_attr(a)
+        if k and k.isupper():
+            try:
+                v = ctx.const_value(k)
+                return {v} if isinstance(v, str) else set(v)
+            except Exception:
+                return set()
         if isinstance(a, ast.Name):
             # loop variable over a class constant
             for loop in ast.walk(f.node):
@@ -114,7 +127,7 @@ def run(eng, R):
         for node, dep, only, why in REQUIRED_EDGES:
             if only is not None and cn not in only:
                 continue
-            if node not in G.nodes:
+            if node not in G.nodes or dep not in G.nodes:
                 continue
             ok = dep in G.depends_closure(node)
             R.ob("Cedge", "%s:%s->%s" % (cn, node, dep), ok, G.where.get(node, (ctx.file, 0)), "%s: node '%s' does not depend on '%s' (%s): it keeps its cached value when '%s' changes" % (cn, node, dep, why, dep))
@@ -150,36 +163,23 @@ def run(eng, R):
             for r in reads:
                 top = r.split(".")[0]
                 if top in HIDDEN_OBJECTS and not r.endswith(NONSTATE_SUFFIX) and (n, r) not in READ_EXEMPT:
+                    if r.endswith("._error_dicts") and n in VALUE_NODES:
+                        continue  # flushing / recalculating re-points the source references (a write effect); values never depend on the sources
                     ins.add(r)
             inputs[n] = ins
         marks = mark_sites(eng, ctx)
+        eng.eff.__dict__.setdefault("skip_call", {})["wc"] = _is_lazy_push
+        mm = MustMarks(eng, ctx, marks)
         # ---- entry points
         entries = [f for f in cache.visible_functions(ctx) if f.kind != "getter" and f.name != "__init__" and
                    (not cache.is_private_helper(f) or f.name == "_on_error_change")]
         for E in entries:
-            W = {w for w in eng.eff.trans_writes(ctx, E) if w.split(".")[0] in HIDDEN_OBJECTS and not w.endswith(NONSTATE_SUFFIX)}
-            # getter-internal refreshes are not configuration changes
-            W = {w for w in W if w in eng.eff._trans(ctx, E, "wx")}
+            # configuration writes: not counting refreshes inside getters and the lazy push of parameters / support points into the model
+            W = {w for w in eng.eff._trans(ctx, E, "wc") if w.split(".")[0] in HIDDEN_OBJECTS and not w.endswith(NONSTATE_SUFFIX)}
             W = {w for w in W if (E.qualname, w) not in WRITE_EXEMPT}
-            if not W:
+            if not W or (cn, E.qualname) in ENTRY_EXEMPT:
                 continue
-            must_marked = set()
-            for name, sites in marks.items():
-                site_calls = {id(c) for _, c in sites}
-
-                def pred(n, site_calls=site_calls):
-                    return any(id(c) in site_calls for c in eng.calls_in_parts(n.ast_parts()))
-
-                # loops over a class constant: the loop header stands for all its names
-                def pred2(n, site_calls=site_calls):
-                    if pred(n):
-                        return True
-                    if n.kind == "for":
-                        return any(id(c) in site_calls for c in ast.walk(n.stmt) if isinstance(c, ast.Call))
-                    return False
-
-                if eng.must_call(ctx, E, pred2):
-                    must_marked.add(name)
+            must_marked = mm.of(E)
             inval = G.dependents_closure(must_marked) if must_marked else set()
             for n in pnodes:
                 hit = sorted(w for w in W for r in inputs[n] if w == r or r.startswith(w + "."))
@@ -321,7 +321,8 @@ def run(eng, R):
                          and not x.endswith(NONSTATE_SUFFIX) and x not in ("_loaded_result_dict",) and ".formatter" not in x and "_formatter" not in x)
             # recalculation of the parametric model (lazy) writes its value store
             bad = [x for x in bad if x not in ("_param_model._data", "_param_model._error_dicts", "_data_container._data", "_data_container._processed_entries",
-                                               "_data_container._unprocessed_entries", "_data_container._error_dicts", "_param_model._support")]
+                                               "_data_container._unprocessed_entries", "_data_container._error_dicts", "_param_model._support",
+                                               "_param_model._processed_entries", "_param_model._unprocessed_entries")]
             R.ob("Cget", "%s:%s" % (cn, f.qualname), not bad, eng.where(f), "%s (as %s) is a getter but writes %s" % (f.qualname, cn, bad[:4]), nontrivial=bool(w))
 
 
@@ -336,3 +337,118 @@ def _first_fit_arg(call, pos=0):
 
 def _nth(lst, n):
     return [x.id for x in lst].index(n.id)
+
+
+def _is_lazy_push(cs, f2):
+    """`self._param_model.parameters = self.parameter_values` / `.x = self.x_model` / `.support = self.data`: idempotent re-sync of the lazily
+    recomputed model with the graph (the model values are a cache of the parameter nodes), performed by getters and query methods alike."""
+    st = cs.node
+    if isinstance(st, ast.Assign) and len(st.targets) == 1 and isinstance(st.targets[0], ast.Attribute):
+        t = st.targets[0]
+        if t.attr in ("parameters", "x", "support") and self_attr(t.value) == "_param_model":
+            v = st.value
+            return isinstance(v, ast.Attribute) and is_self(v.value) and v.attr in ("parameter_values", "x_model", "data", "x_data")
+    return False
+
+
+class MustMarks:
+    """names of graph nodes marked for update on *every* normal path of a fit function, following same-object calls and calls into the
+    fit's containers that end in the container's _on_error_change (which calls back into the fit's _on_error_change, wiring checked by C01/D6)."""
+
+    def __init__(self, eng, ctx, marks):
+        self.eng, self.ctx, self.marks = eng, ctx, marks
+        self.memo = {}
+        self.cb = ctx.find_method("_on_error_change")
+        self._reaches_cb = {}
+
+    def container_reaches_callback(self, c2, f2):
+        """container function f2 (class c2) calls self._on_error_change() -> ... self._on_error_change_callback() on every normal path"""
+        key = (id(c2), id(f2))
+        if key in self._reaches_cb:
+            return self._reaches_cb[key]
+        self._reaches_cb[key] = False
+
+        def is_cb_call(n):
+            for c in self.eng.calls_in_parts(n.ast_parts()):
+                if isinstance(c.func, ast.Attribute) and c.func.attr == "_on_error_change_callback" and is_self(c.func.value):
+                    return True
+            return False
+
+        def guarded_cb(n):
+            # `if self._on_error_change_callback is not None: self._on_error_change_callback()` - the hook is installed by the data setter (D6)
+            if n.kind == "test" and isinstance(n.stmt, ast.If) and "_on_error_change_callback" in ast.unparse(n.stmt.test):
+                return any(isinstance(c, ast.Call) and isinstance(c.func, ast.Attribute) and c.func.attr == "_on_error_change_callback" for b in n.stmt.body for c in ast.walk(b))
+            return is_cb_call(n)
+
+        r = self.eng.must_call(c2, f2, guarded_cb)
+        self._reaches_cb[key] = r
+        return r
+
+    def of(self, f, _stack=()):
+        key = id(f)
+        if key in self.memo:
+            return self.memo[key]
+        if key in _stack:
+            return set()
+        eng, ctx = self.eng, self.ctx
+        g = eng.cfg(f)
+        summ = eng.eff.summary(ctx, f)
+        by_node = {}
+        for cs in summ.calls:
+            by_node.setdefault(id(cs.node), []).append(cs)
+        node_marks = {}
+        for n in g.stmt_nodes():
+            ms = set()
+            parts = n.ast_parts()
+            subs = [sub for part in parts for sub in walk_no_nested(part)]
+            if n.kind == "for":
+                # loop over a class constant marking each element: the header stands for all names (an empty constant marks nothing)
+                subs = list(ast.walk(n.stmt))
+            for sub in subs:
+                if isinstance(sub, ast.Call):
+                    for name, sites in self.marks.items():
+                        if any(c is sub for _, c in sites):
+                            if n.kind == "for" or not common.in_loop(f.node, sub) or True:
+                                ms.add(name)
+                for cs in by_node.get(id(sub), ()):
+                    if n.kind == "for" and cs.node is not n.expr and not _inside_expr(n.expr, cs.node):
+                        continue
+                    for c2, f2 in cs.targets:
+                        if cs.prefix == "" and f2 is not f:
+                            ms |= self.of(f2, _stack + (key,))
+                        elif cs.prefix in ("_data_container", "_param_model") and self.cb is not None:
+                            if self.container_reaches_callback(c2, f2):
+                                ms |= self.of(self.cb, _stack + (key,))
+            if n.kind == "for" and not (self_attr(n.expr) and n.expr.attr.isupper()):
+                # only loops over class constants are summarised at the header
+                ms = {m for m in ms if False}
+            node_marks[n.id] = ms
+        # marks inside loop bodies over non-constant iterables do not count (zero iterations)
+        out = set()
+        all_names = set().union(*node_marks.values()) if node_marks else set()
+        for name in all_names:
+            sat = {nid for nid, ms in node_marks.items() if name in ms and not _in_unsummarised_loop(f.node, g.nodes[nid])}
+            ok, _ = g.all_paths_pass(g.entry.id, lambda m, sat=sat: m.id in sat)
+            if ok:
+                out.add(name)
+        self.memo[key] = out
+        return out
+
+
+def _inside_expr(outer, inner):
+    return any(n is inner for n in ast.walk(outer)) if outer is not None else False
+
+
+def _in_unsummarised_loop(func_node, n):
+    if n.kind == "for":
+        return False
+    st = n.stmt
+    pm = common.parents_of(func_node)
+    cur = pm.get(id(st))
+    prev = st
+    while cur is not None and cur is not func_node:
+        if isinstance(cur, (ast.For, ast.While)) and any(prev is b for b in cur.body):
+            return True
+        prev = cur
+        cur = pm.get(id(cur))
+    return False
